@@ -556,7 +556,7 @@ def run_check(prop, tier, queries, meta):
                               ", ".join(sorted({f["location"].split("/")[-1] for f in r.failing}))[:300]))
         elif r.status == "FAIL":
             violations.append(r)
-        elif r.status in ("TIMEOUT", "OOM") and q.stretch:
+        elif q.stretch and (r.status in ("TIMEOUT", "OOM") or (r.status == "ERROR" and "too many addressed objects" in r.detail)):
             stretch_undecided.append(r)
         elif r.status != "PASS":
             machinery.append((r, "%s %s" % (r.status, r.detail[:800])))
